@@ -292,4 +292,48 @@ program!(
     ConvBias, |l| { let c = l[0].conv(&l[1], (1, 1)); vec![c.add(&l[2])] }
 );
 
+program!(
+    /// two results sharing a sub-graph: p = a*b, r1 = p + a, r2 = p * b
+    TwoRoots, |l| {
+        let p = l[0].mul(&l[1]);
+        let r1 = p.add(&l[0]);
+        let r2 = p.mul(&l[1]);
+        vec![p, r1, r2]
+    }
+);
+program!(
+    /// self-products depth 5: 32 paths
+    SquareChain5, |l| {
+        let a = l[0].mul(&l[0]);
+        let b = a.mul(&a);
+        let c = b.mul(&b);
+        let d = c.mul(&c);
+        let e = d.mul(&d);
+        vec![a, b, c, d, e]
+    }
+);
+program!(
+    /// self-products depth 6: 64 paths
+    SquareChain6, |l| {
+        let a = l[0].mul(&l[0]);
+        let b = a.mul(&a);
+        let c = b.mul(&b);
+        let d = c.mul(&c);
+        let e = d.mul(&d);
+        let f = e.mul(&e);
+        vec![a, b, c, d, e, f]
+    }
+);
+program!(
+    /// fan-out 3 with add/mul only (C11): x consumed by three nodes that are then combined
+    FanOut3, |l| {
+        let p = l[0].mul(&l[1]);
+        let q = l[0].add(&l[1]);
+        let r = l[0].mul(&l[0]);
+        let s = p.add(&q);
+        let t = s.mul(&r);
+        vec![p, q, r, s, t]
+    }
+);
+
 include!("gen_programs.rs");
